@@ -80,6 +80,11 @@ LABELLED = [
     ("OverlappingFieldsCanBeMerged", "{ me { friends { n: name } friends { n: age } } }"),
     ("OverlappingFieldsCanBeMerged", "{ named { ... on Dog { x: name } ... on Cat { x: name } ... on Dog { x: barks } } }"),
     ("OverlappingFieldsCanBeMerged", "{ me { name } me { name: age } }"),
+    # arguments that differ only beyond double precision / in list order / in a nested value
+    ("OverlappingFieldsCanBeMerged", "{ echo(id: 9007199254740993) echo(id: 9007199254740992) }"),
+    ("OverlappingFieldsCanBeMerged", "{ echo(f: {tags: [\"a\", \"b\"]}) echo(f: {tags: [\"b\", \"a\"]}) }"),
+    ("OverlappingFieldsCanBeMerged", "{ echo(f: {sub: {min: 1}}) echo(f: {sub: {min: 2}}) }"),
+    ("OverlappingFieldsCanBeMerged", "{ echo(id: \"1\") echo(id: 1) }"),
 ]
 # valid documents that exercise order-dependent machinery
 VALID_TRICKY = [
